@@ -1,7 +1,7 @@
 (* C17 — non-vacuity examples and the refutation of the pre-repair behaviour
    (memory consulted before the baseline check and before anergy). *)
 From Coq Require Import ZArith List Bool QArith.
-From Verif Require Import C17.Model C17.Proofs.
+From Verif Require Import C17.Model C17.Proofs C17.ProofsWorld.
 Import ListNotations.
 Open Scope Z_scope.
 
@@ -328,3 +328,57 @@ Example ex_partial_recall :
      [OStore (mkSig 0 1 1 LConf AIsolate 0 0 [2]); OAdvance 1; OStore (mkSig 0 2 2 LConf AIsolate 0 0 [4; 5]);
       OAdvance 1; OTouchPartial 0 [1; 2]; OAdvance 1; OStore (mkSig 0 3 3 LConf AIsolate 0 0 [])])) = [1; 3].
 Proof. vm_compute. reflexivity. Qed.
+
+(* ---------------------------------------------------------------------- *)
+(* several agents: ids 0 ("a") and 2 (an id differing from it only in case) *)
+
+Definition pf_two (w : list Z) (c : list bool) : peptide := if zl_eq w [1] then inside else slow.
+Definition ag0 : agent_st := mkAg (mkDisp 1 1 [] []) (Some watcher) (Some (mkRec 0 0 false [])).
+Definition world0 : world := mkWorld (fun _ => ag0) [] 0 0.
+Definition two_agents_history : list (Z * aop) :=
+  [ (2, ARecord 2); (2, ASys (OFlag true)); (2, AInspect);     (* agent 2: anomaly + flag: CONFIRMED, remembered *)
+    (0, ARecord 2); (0, AInspect);                              (* agent 0: the same anomaly for the first time *)
+    (2, ASys OReset); (2, AInspect) ].                          (* agent 2 again: answered from memory *)
+Definition wsummary (x : world * Z * aop * outcome) : Z * list Z :=
+  let '(_, k, _, out) := x in (k, match out with OutResp r _ => [level_code (r_level r); sig2_code (r_s2 r)] | _ => [] end).
+(* agent 2 is CONFIRMED on two signals of its own and later recognised from memory; the first
+   anomaly of agent 0 in between, with the very same hashes, is SUSPICIOUS with no second signal *)
+Example ex_two_agents_memory_is_per_agent :
+  map wsummary (wrun pf_two id_rnd false g_norules world0 two_agents_history) =
+  [(2, []); (2, []); (2, [2; 4]); (0, []); (0, [1; 0]); (2, []); (2, [2; 2])].
+Proof. vm_compute. reflexivity. Qed.
+
+(* c17_two_signals_per_agent is not vacuous: the threat reported for agent 2 *)
+Example ex_two_agents_threat :
+  exists w r sp, In (w, 2, AInspect, OutResp r sp) (wrun pf_two id_rnd false g_norules world0 two_agents_history) /\
+                 threat r /\ r_viol r = [9] /\ w_mem w <> [] /\
+                 ~ remembered_of 0 (w_mem w) slow /\ remembered_of 2 (w_mem w) slow.
+Proof.
+  eexists. eexists. eexists. split.
+  - vm_compute. do 6 right. left. reflexivity.
+  - split; [left; reflexivity|]. split; [reflexivity|]. split; [discriminate|]. split.
+    + intros [m [I [A _]]]. vm_compute in I. destruct I as [I|[]]. subst m. discriminate.
+    + eexists. split; [left; reflexivity|]. vm_compute. auto.
+Qed.
+
+(* the other two world theorems: agent 0's state after the calls about agent 2; nothing remembered about 0 *)
+Example ex_two_agents_isolation :
+  w_agents (wfinal pf_two id_rnd false g_norules world0 (firstn 3 two_agents_history)) 0 = ag0 /\
+  length (w_mem (wfinal pf_two id_rnd false g_norules world0 (firstn 3 two_agents_history))) = 1%nat.
+Proof. split; vm_compute; reflexivity. Qed.
+
+(* ---------------------------------------------------------------------- *)
+(* a window without a single word character: no vocabulary, no structure - whatever strings the display
+   reports as its hashes (here 0, the blank string, for both), training learns exactly them, the window
+   just trained on is clean, also under a manual flag *)
+Definition wordless_window : peptide := mkPep 0 0 (5#8) (1#8) (7#8) 0 1 0 0 None.
+Example ex_training_wordless_window :
+  exists s1, sys_step id_rnd false g_norules s_plain (OTrain (Some wordless_window)) = (s1, OutTrain Positive) /\
+    (exists t, s_tcell s1 = Some t /\ vocab (t_prof t) = [0] /\ structs (t_prof t) = [0]) /\
+    map (fun x => outcome_obs (snd x)) (run id_rnd false g_norules s1 [OInspect (Some wordless_window); OFlag true; OInspect (Some wordless_window)])
+    = [[0; 0; 0; 0; 0; 0; 1; 0; 0; 0; -1]; []; [0; 0; 0; 4; 0; 0; 1; 0; 0; 0; -1]].   (* NONE / IGNORE both times; the flag is merely shown as signal 2 *)
+Proof.
+  eexists. split; [vm_compute; reflexivity|]. split.
+  - eexists. split; [reflexivity|]. split; reflexivity.
+  - vm_compute. reflexivity.
+Qed.
